@@ -50,6 +50,16 @@ func mergeCases(run *Run, s *Scenario, limit int) int {
 		}
 		n++
 		run.Count("merge_result_" + lookupNames[res])
+		if bsch.Body != nil && bsch.Body.Extensions != nil && bsch.Body.Extensions.DynamicBlocks && (res == 1 || res == 2) {
+			// dependent body in force under the dynamic-blocks extension: do its nested blocks carry extensions of their own?
+			if dep, _, _ := decoder.VerifDependentBodySchema(b.AsHCLBlock(), bsch); dep != nil {
+				for _, nb := range dep.Blocks {
+					if nb != nil && nb.Body != nil && nb.Body.Extensions != nil && !nb.Body.Extensions.DynamicBlocks {
+						run.Count("merge_dynamic_into_dependent_block_with_own_extensions")
+					}
+				}
+			}
+		}
 		run.Case("merge", []S{blockSchemaS(bsch), blockS(b)}, T("merged", Atom(lookupNames[res]), bodySchemaS(merged)))
 	})
 	return n
